@@ -1,7 +1,7 @@
 //! Controllable runtime for the external verification harness.
 //!
 //! Only compiled with `--cfg tiny_http_verif`. It provides `Mutex`, `Condvar` and `Instant` with the
-//! std signatures used by `util/messages_queue.rs`. A thread that was started through
+//! std signatures used by `util/messages_queue.rs`, `util/task_pool.rs` and `util/sequential.rs`. A thread that was started through
 //! [`run`] / [`spawn`] is *controlled*: exactly one controlled thread runs at a time, every
 //! synchronisation operation is a scheduling point decided by a seeded (or replayed) schedule,
 //! timed waits are ended by a virtual clock that only moves when a timer fires, and every event is
@@ -38,6 +38,11 @@ pub enum Ev {
     Exited { tid: usize, clock_ns: u64 },
     /// a marker placed by the harness (no scheduling point)
     Mark { tid: usize, text: String, clock_ns: u64 },
+    /// `send` on channel `ch` (channels are numbered in creation order within a run); `ok` = the
+    /// receiving end still existed and the value was queued
+    ChanSend { tid: usize, ch: usize, ok: bool, clock_ns: u64 },
+    /// `recv` on channel `ch` returned: a value (`ok`) or "all senders are gone"
+    ChanRecv { tid: usize, ch: usize, ok: bool, clock_ns: u64 },
 }
 
 #[derive(Clone, Debug, PartialEq)]
@@ -61,6 +66,7 @@ struct Sched {
     rng: u64,
     owners: Vec<Option<usize>>,
     ncv: usize,
+    nch: usize,
     abort: bool,
     deadlock: Option<String>,
     states_at_end: Option<Vec<String>>,
@@ -266,6 +272,7 @@ pub fn run<F: FnOnce()>(seed: u64, replay: Option<Vec<u8>>, f: F) -> Outcome {
             rng: (seed.wrapping_mul(0x9E3779B97F4A7C15)) | 1,
             owners: vec![],
             ncv: 0,
+            nch: 0,
             abort: false,
             deadlock: None,
             states_at_end: None,
@@ -628,6 +635,121 @@ pub fn without_preemption<F: FnOnce()>(f: F) {
     if m != NONE {
         if let Some(s) = lock_s().as_mut() {
             s.nopreempt = None;
+        }
+    }
+}
+
+/// The part of `std::sync::mpsc` used by `util/sequential.rs`: an unbounded channel built on the
+/// facade `Mutex`/`Condvar` above, so that for controlled threads every send/receive is a scheduling
+/// point and is recorded; for every other thread it behaves like the std channel.
+pub mod mpsc {
+    use super::{lock_s, me, Condvar, Ev, Mutex, NONE};
+    use std::collections::VecDeque;
+    use std::sync::Arc;
+
+    struct ChanSt<T> {
+        q: VecDeque<T>,
+        senders: usize,
+        receiver: bool,
+    }
+    struct Chan<T> {
+        id: usize,
+        st: Mutex<ChanSt<T>>,
+        cv: Condvar,
+    }
+    pub struct Sender<T>(Arc<Chan<T>>);
+    pub struct Receiver<T>(Arc<Chan<T>>);
+    pub struct SendError<T>(pub T);
+    impl<T> std::fmt::Debug for SendError<T> {
+        fn fmt(&self, f: &mut std::fmt::Formatter<'_>) -> std::fmt::Result {
+            f.write_str("SendError(..)")
+        }
+    }
+    #[derive(Debug)]
+    pub struct RecvError;
+
+    fn record<F: FnOnce(usize, u64) -> Ev>(ch: usize, f: F) {
+        let m = me();
+        if m == NONE || ch == NONE {
+            return;
+        }
+        if let Some(s) = lock_s().as_mut() {
+            let c = s.clock;
+            s.trace.push(f(m, c));
+        }
+    }
+
+    pub fn channel<T>() -> (Sender<T>, Receiver<T>) {
+        let id = if me() == NONE {
+            NONE
+        } else {
+            match lock_s().as_mut() {
+                Some(s) => {
+                    s.nch += 1;
+                    s.nch - 1
+                }
+                None => NONE,
+            }
+        };
+        let c = Arc::new(Chan { id, st: Mutex::new(ChanSt { q: VecDeque::new(), senders: 1, receiver: true }), cv: Condvar::new() });
+        (Sender(c.clone()), Receiver(c))
+    }
+
+    impl<T> Sender<T> {
+        pub fn send(&self, t: T) -> Result<(), SendError<T>> {
+            let ch = self.0.id;
+            let mut g = self.0.st.lock().unwrap();
+            if !g.receiver {
+                record(ch, |tid, clock_ns| Ev::ChanSend { tid, ch, ok: false, clock_ns });
+                return Err(SendError(t));
+            }
+            g.q.push_back(t);
+            record(ch, |tid, clock_ns| Ev::ChanSend { tid, ch, ok: true, clock_ns });
+            self.0.cv.notify_one();
+            Ok(())
+        }
+    }
+    impl<T> Clone for Sender<T> {
+        fn clone(&self) -> Sender<T> {
+            self.0.st.lock().unwrap().senders += 1;
+            Sender(self.0.clone())
+        }
+    }
+    impl<T> Drop for Sender<T> {
+        fn drop(&mut self) {
+            let mut g = self.0.st.lock().unwrap();
+            g.senders -= 1;
+            if g.senders == 0 {
+                self.0.cv.notify_all();
+            }
+        }
+    }
+    impl<T> Receiver<T> {
+        pub fn recv(&self) -> Result<T, RecvError> {
+            let ch = self.0.id;
+            let mut g = self.0.st.lock().unwrap();
+            loop {
+                if let Some(v) = g.q.pop_front() {
+                    record(ch, |tid, clock_ns| Ev::ChanRecv { tid, ch, ok: true, clock_ns });
+                    return Ok(v);
+                }
+                // (a controlled thread that is being unwound at the end of a run never blocks)
+                if g.senders == 0 || (me() != NONE && std::thread::panicking()) {
+                    record(ch, |tid, clock_ns| Ev::ChanRecv { tid, ch, ok: false, clock_ns });
+                    return Err(RecvError);
+                }
+                g = self.0.cv.wait(g).unwrap();
+            }
+        }
+    }
+    impl<T> Drop for Receiver<T> {
+        fn drop(&mut self) {
+            let pending = {
+                let mut g = self.0.st.lock().unwrap();
+                g.receiver = false;
+                std::mem::take(&mut g.q)
+            };
+            drop(pending);
         }
     }
 }
